@@ -503,7 +503,8 @@ func (v *env) firstIsTomb(primary bool, x Val) bool {
 // ---------- direct checks of the property statement on the implementation ----------
 
 const (
-	// texts matched by known_findings/C12.json (keep in sync)
+	// signatures of the defects repaired by c876bb2 / 12bf3b7 / a77403f (known_findings/C12.json lists them as
+	// fixed): a recurrence is reported under these texts and is a VIOLATION
 	fTombUnique = "UNIQUE index on t(v) holds duplicate live rows: the first index entry under the value prefix is a tombstone (doUpsert checks only the first key returned by getWithPrefix)"
 	fTombCreate = "CREATE UNIQUE INDEX accepted on a non-empty table: the first primary-index entry is a tombstone (CreateIndexStmt checks only the first key returned by getWithPrefix)"
 	fNullUpdate = "NOT NULL column v holds NULL after UPDATE ... SET v = NULL (UpdateStmt.execAt has no NOT NULL check)"
